@@ -285,8 +285,26 @@ fn string_bytes() -> impl Strategy<Value = Vec<u8>> {
 }
 
 pub fn strategy() -> impl Strategy<Value = Case> {
-    (string_bytes(), string_bytes(), any::<u16>(), any::<u16>(), any::<u16>()).prop_map(|(bytes, other, sp, a, e)| {
+    // the string it is compared with: independent, or the same string with one to three characters
+    // changed / two characters swapped (long common prefixes, differences close together)
+    let edits = prop::collection::vec((any::<u16>(), prop::sample::select(vec!['a', 'b', 'z', '0', 'é', '\u{0}', '~'])), 1..4);
+    (string_bytes(), string_bytes(), any::<u16>(), any::<u16>(), any::<u16>(), prop::option::weighted(0.5, (edits, any::<bool>()))).prop_map(|(bytes, other, sp, a, e, near)| {
         let split = vcore::pick(sp, bytes.len() + 2);
+        let other = match (near, std::str::from_utf8(&bytes)) {
+            (Some((edits, swap)), Ok(s)) if s.chars().count() >= 2 => {
+                let mut cs: Vec<char> = s.chars().collect();
+                if swap {
+                    let i = vcore::pick(edits[0].0, cs.len() - 1);
+                    cs.swap(i, i + 1);
+                }
+                for (at, ch) in edits.iter().skip(if swap { 1 } else { 0 }) {
+                    let i = vcore::pick(*at, cs.len());
+                    cs[i] = *ch;
+                }
+                cs.into_iter().collect::<String>().into_bytes()
+            }
+            _ => other,
+        };
         Case { bytes, other, split, sub: (a as usize, e as usize) }
     })
 }
@@ -302,7 +320,7 @@ pub fn case_from_bytes(data: &[u8]) -> Case {
     Case { bytes, other, split, sub: ((data[1] as usize) << 8, (data[2] as usize) << 8) }
 }
 
-const RULE: &str = "byte string built into a ByteString through every constructor and compared with str on validity, content, formatting, hashing, ordering, split_at (all indices 0..=len+1 for short inputs, panic parity under catch_unwind) and slice_ref (all char-boundary sub-slices for short inputs), recursively on derived values; non-trivial = input contains a byte >= 0x80 (multi-byte sequence or invalid byte); distinct by the whole case";
+const RULE: &str = "byte string built into a ByteString through every constructor and compared with str on validity, content, formatting, hashing, ordering (also against near copies of the same string: one to three characters changed or two swapped), split_at (all indices 0..=len+1 for short inputs, panic parity under catch_unwind) and slice_ref (all char-boundary sub-slices for short inputs), recursively on derived values; non-trivial = input contains a byte >= 0x80 (multi-byte sequence or invalid byte); distinct by the whole case";
 
 pub fn run(ctx: &Ctx) {
     ctx.assume("`str`/`String` of the standard library are the reference; hashing is compared with std's DefaultHasher and, write call by write call, with a recording hasher");
